@@ -36,6 +36,13 @@ func (u *unionCodec) Skip(r *ReadBuf) error {
 }
 
 func (u *unionCodec) New(r *ReadBuf) unsafe.Pointer {
+	// All branches are built for the same Go type, so any branch that
+	// allocates gives the right kind of memory.
+	for _, c := range u.codecs {
+		if p := c.New(r); p != nil {
+			return p
+		}
+	}
 	return nil
 }
 
@@ -89,7 +96,7 @@ func (u *unionOneAndNullCodec) Skip(r *ReadBuf) error {
 }
 
 func (u *unionOneAndNullCodec) New(r *ReadBuf) unsafe.Pointer {
-	return nil
+	return u.codec.New(r)
 }
 
 func (u *unionOneAndNullCodec) Omit(p unsafe.Pointer) bool {
@@ -147,7 +154,7 @@ func (u *unionNullString) Skip(r *ReadBuf) error {
 }
 
 func (u *unionNullString) New(r *ReadBuf) unsafe.Pointer {
-	return nil
+	return u.codec.New(r)
 }
 
 func (u *unionNullString) Omit(p unsafe.Pointer) bool {
